@@ -515,6 +515,79 @@ def run_allres(c):
     return ck.result()
 
 
+# ------------------------------------------------------------------------------------------- one object given twice
+COINCIDENT_FACTORS = [3.0, 0.3, 1.1, -7.0, 1.7, 2.0, -0.5, 1 / 3, -1.0, 5.0]
+
+
+@st.composite
+def coinc_case(draw, tier="quick"):
+    d = draw(st.sampled_from([2, 3]))
+    return {"d": d, "what": draw(st.sampled_from(["points", "hyperplanes", "lines3", "points", "hyperplanes"])), "v": [draw(C.ints(9)) for _ in range(2 * (d + 1))], "den": draw(st.sampled_from([1, 10, 3, 7, 10])),
+            "f": [draw(st.integers(0, len(COINCIDENT_FACTORS) - 1)) for _ in range(2)], "form": draw(st.sampled_from(["function", "method", "constructor"])), "coll": draw(st.booleans()), "swap": draw(st.booleans())}
+
+
+def run_coinc(c):
+    """the same point / line / plane given twice, the second time as another representative f * x (coordinates k/10, k/3, k/7, so that
+    f * x is rounded): joining or intersecting an object with itself raises LinearDependenceError whatever the factor f is - for
+    f = 2 the products are exact, for f = 3 or 0.3 they are not, and the outcome must not depend on that"""
+    from geometer import LineCollection, PlaneCollection, PointCollection, join, meet
+    from geometer.exceptions import LinearDependenceError
+
+    d, what, den = c["d"], c["what"], c["den"]
+    if d not in (2, 3) or den not in (1, 3, 7, 10) or len(c["v"]) != 2 * (d + 1) or any(not 0 <= k < len(COINCIDENT_FACTORS) for k in c["f"]):
+        raise Skip("malformed")
+    v = np.array([float(x) for x in c["v"]]) / den
+    x, y = v[: d + 1], v[d + 1:]
+    if what == "points":
+        x = np.append(x[:d], 1.0)
+    if not np.any(x[:d]) or (what == "lines3" and d != 3):
+        raise Skip("zero vector / no lines")
+    ck = Checker()
+    outcomes = []
+    for k in c["f"]:
+        f = COINCIDENT_FACTORS[k]
+        site = f"coincident:{what}{d}:{c['form']}" + (":collection" if c["coll"] else "")
+        if what == "lines3":
+            x1, y1 = np.append(x[:d], 1.0), np.append(y[:d], 1.0)
+            if np.allclose(x1, y1):
+                raise Skip("same point")
+            a, fa = call(site + ":construct", lambda: Line(Point(x1), Point(y1)))
+            if fa:
+                raise Skip("degenerate line")
+            b = Line(np.asarray(a.array) * f)
+            op = meet if not c["swap"] else join
+            args = (a, b)
+        else:
+            cls, ccls = (Point, PointCollection) if what == "points" else ((Line, LineCollection) if d == 2 else (Plane, PlaneCollection))
+            if c["coll"]:
+                a, b = ccls(np.stack([x, x])), ccls(np.stack([x * f, x * f]))
+            else:
+                a, b = cls(x), cls(x * f)
+            op = join if what == "points" else meet
+            args = (b, a) if c["swap"] else (a, b)
+        if c["form"] == "method" and what != "lines3":
+            fn = lambda: getattr(args[0], "join" if op is join else "meet")(args[1])  # noqa: E731
+        elif c["form"] == "constructor" and what == "points" and not c["coll"]:
+            fn = lambda: Line(*args)  # noqa: E731
+        else:
+            fn = lambda: op(*args)  # noqa: E731
+        try:
+            r = fn()
+            outcomes.append((f, "returned " + type(r).__name__ + " " + str(np.asarray(r.array).tolist())[:120]))
+        except LinearDependenceError as e:
+            dv = getattr(e, "dependent_values", None)
+            if c["coll"] and what != "lines3":
+                ck.check(dv is not None and bool(np.all(dv)) and np.shape(dv) == (2,), site + ":mask-marks-every-position", (f, None if dv is None else np.asarray(dv).tolist()))
+            outcomes.append((f, "LinearDependenceError"))
+        except G.exceptions.GeometryException as e:
+            outcomes.append((f, type(e).__name__))
+        except Exception as e:  # noqa: BLE001
+            ck.add(exc_fail(e, site))
+            return ck.result()
+        ck.check(outcomes[-1][1] == "LinearDependenceError", site + ":an-object-and-its-multiple-are-dependent", (x.tolist(), outcomes[-1]))
+    return ck.result()
+
+
 LAWS = [
     Law("rescale_argument", lambda tier: case(tier), run, nontrivial, labels, {"quick": 6000, "thorough": 150000},
         "op(args) vs op(args with one argument's homogeneous representative rescaled)", shard=400, mandatory=("negative-factor", "complex-factor")),
@@ -533,6 +606,9 @@ LAWS = [
     Law("all_operands_rescaled", lambda tier: allres_case(tier), run_allres, lambda c: any(x[0] < 0 or x[1] != 0 or x[2] != 1 for x in c["fp"] + c["fq"]),
         lambda c: ["single" if c["single"] else f"collection{len(c['P'])}", f"d{c['d']}"], {"quick": 700, "thorough": 12000},
         "points / point collections with every element of both operands given by another representative: sum, difference, dist, join, ==, normalized_array", shard=300),
+    Law("coincident_operands_rescaled", lambda tier: coinc_case(tier), run_coinc, lambda c: c["den"] != 1, lambda c: [f"{c['what']}{c['d']}", c["form"], "collection" if c["coll"] else "single"] + (["non-dyadic-coordinates"] if c["den"] != 1 else []),
+        {"quick": 1500, "thorough": 25000}, "an object joined / intersected with another representative f * x of itself (coordinates k/10, k/3, k/7; f = 3, 0.3, 1.1, -7, 2, ...): LinearDependenceError for every f, mask marks every position", shard=300,
+        mandatory=("non-dyadic-coordinates", "lines33")),
     Law("equality", lambda tier: eq_case(tier), run_eq, lambda c: True, lambda c: [f"{c['kind']}{c['d']}"], {"quick": 1500, "thorough": 30000},
         "== holds for every non-zero multiple, is reflexive and symmetric, and is false for objects that are clearly not multiples", shard=400),
 ]
